@@ -257,7 +257,13 @@ fn gen_zcfg(dna: &mut Dna, input_len: usize, min_level: i32, allow_tricks: bool)
     // strategy: default 60%, others 10% each
     let strategy = [0, 1, 2, 3, 4][dna.weighted(&[60, 10, 10, 10, 10])];
     let window_bits = if dna.chance(35) { dna.range(9, 15) as i32 } else { 15 };
-    let mem_level = if dna.chance(35) { dna.range(1, 9) as i32 } else { 8 };
+    let mem_level = if input_len > 300 * 1024 && dna.chance(50) {
+        dna.range(1, 2) as i32
+    } else if dna.chance(35) {
+        dna.range(1, 9) as i32
+    } else {
+        8
+    };
     let mut flushes = vec![];
     let mut params_switch = None;
     let (mut level, mut mem_level) = (level, mem_level);
